@@ -360,7 +360,7 @@ def one_call_threadsafe(term, pt):
     from pyworkers import remote_pickle
     with LOCK:
         data, _ = pg.dump_term(term)
-    real, addr_of, heap = pg.build_patches(pt)
+    real = pg.real_patches(pt)
     try:
         back = remote_pickle.loads(data, extra_kwargs=real)
     except BaseException as e:   # noqa
@@ -376,7 +376,7 @@ def one_call_threadsafe(term, pt):
         for k, v in o.__dict__.items():
             if k == '_id':
                 continue
-            fields.append((pg.name_key(k), ('obj', v._id) if isinstance(v, pg.OptBase) else ('dict', addr_of[id(v)]) if isinstance(v, dict) and id(v) in addr_of else ('atom', v)))
+            fields.append((pg.name_key(k), ('obj', v._id) if isinstance(v, pg.OptBase) else ('dict',) if isinstance(v, dict) else ('atom', v)))
         out.append((o._id, fields))
     walk(back)
     return (None, out)
